@@ -812,6 +812,11 @@ impl Exec {
             (SlaveService::ChkCfg, 2) if is_sc => 3,
             (SlaveService::Diag, 3) => match diag_flags {
                 Some(f) if f & (0x0040 | 0x0004 | 0x0100 | 0x0002) == 0 => 4,
+                // "… or asked to be (re-)parameterised": a parameter request in the validating diagnostics
+                // puts the bring-up back to "diagnostics answered" — Set_Prm and Chk_Cfg have to be
+                // acknowledged again. (In data exchange a conforming slave signals the same thing by
+                // answering Data_Exchange with RS; a Prm_Req flag in a diagnostics reply there is not judged.)
+                Some(f) if f & 0x0100 != 0 => 1,
                 _ => 3,
             },
             (_, p) => p,
@@ -954,6 +959,13 @@ impl Exec {
             if e == PeripheralEvent::Offline {
                 if self.mon.per[i].probing && self.mon.per[i].last_req.is_none() {
                     self.violation("c08.duplicate_offline_event", format!("second Offline event for peripheral {i} without an answered request in between"));
+                    return;
+                }
+                // "... an unanswered request is transmitted at most 1+max_retry_limit times, AFTER WHICH exactly
+                // one Offline event is raised": an Offline event presupposes an unanswered request — not one
+                // whose acceptable reply was delivered
+                if self.mon.per[i].last_req.is_some() && self.mon.per[i].last_req_genuine_reply && !self.mon.per[i].probing {
+                    self.violation("c08.offline_event_although_last_request_was_answered", format!("Offline event for peripheral {i} although the reply to its last request was delivered and acceptable"));
                     return;
                 }
                 let m = &mut self.mon.per[i];
